@@ -77,5 +77,13 @@ func interDepartureTimePkt(group arrivalGroup, ack cc.Acknowledgment) time.Durat
 }
 
 func interGroupDelayVariationPkt(group arrivalGroup, ack cc.Acknowledgment) time.Duration {
-	return ack.Arrival.Sub(group.arrival) - ack.Departure.Sub(group.departure)
+	// both deltas are taken against the last packet of the group: group.departure is the
+	// departure of its first packet (the burst_time rule above), and measured against that
+	// every packet of a steady stream would look early and the group would never end
+	departure := group.departure
+	if n := len(group.packets); n > 0 {
+		departure = group.packets[n-1].Departure
+	}
+
+	return ack.Arrival.Sub(group.arrival) - ack.Departure.Sub(departure)
 }
